@@ -49,14 +49,35 @@ CopyRoute(d, ensure, isString) ==
 \* which routes preserve the values
 Preserves(route, d) == route # "skipped" \/ d.len = "zero"
 
-VARIABLES descr, pipe
+\* what else the input holds besides features, image, mask, log, table, user
+\* metadata, a file basin and an internal basin:
+\*   defective-time / defective-aspect: a stored feature that dclab treats as
+\*     defective (float32 time with frame data; aspect written by ShapeIn
+\*     2.0.6) - the dataset exposes the recomputed feature instead
+\*   unknown-feature: an extra dataset under /events with an undefined name
+\*   mapped-basin: a file basin with twice the events and a mapping feature
+Extras == {"plain", "defective-time", "defective-aspect", "unknown-feature",
+           "mapped-basin"}
+\* stored datasets the copy need not carry over (the dataset-level features
+\* must agree all the same)
+NotCarried(x) == CASE x = "defective-time" -> {"time"}
+                   [] x = "defective-aspect" -> {"aspect"}
+                   [] x = "unknown-feature" -> {"peter"}
+                   [] OTHER -> {}
+
+VARIABLES descr, pipe, extra
 
 Init == /\ descr \in {d \in Descr : Valid(d)}
         /\ pipe \in UNION {[1..k -> Tasks] : k \in 1..2}
         \* the second task of a pipeline always reads the first task's output
         \* layout, so the (expensive) large inputs are run through one task
         /\ descr.len = "large" => Len(pipe) = 1
-Next == UNCHANGED <<descr, pipe>>
+        /\ extra \in Extras
+        \* the extras are independent of the layout: explored on two layouts
+        /\ extra # "plain" =>
+              /\ descr.len = "many" /\ descr.str = "fixed" /\ descr.chunk = "equal"
+              /\ descr.filter \in {"none", "zstd5"}
+Next == UNCHANGED <<descr, pipe, extra>>
 
 EveryRoutePreserves ==
     \A ensure \in BOOLEAN, isString \in BOOLEAN :
@@ -66,7 +87,8 @@ EveryRoutePreserves ==
 Stripped(t) == CASE t = "repack-strip-logs" -> {"logs"}
                  [] t = "repack-strip-basins" -> {"basins"}
                  [] OTHER -> {}
-Emit == PrintT(<<"H", ToJson([descr |-> descr, pipe |-> pipe,
+Emit == PrintT(<<"H", ToJson([descr |-> descr, pipe |-> pipe, extra |-> extra,
+                              notcarried |-> NotCarried(extra),
                               stripped |-> [i \in 1..Len(pipe) |-> Stripped(pipe[i])],
                               routes |-> [feature |-> CopyRoute(descr, TRUE, FALSE),
                                           log |-> CopyRoute(descr, TRUE, TRUE)]])>>)
